@@ -106,6 +106,7 @@ func genTxtarWrite(g *gen) {
 	var cleanedVar string
 	cleans := false
 	var openCall, mkdirCall *ast.CallExpr
+	nOpen, nMkdir, nOtherOS := 0, 0, 0
 	ast.Inspect(fd.Body, func(n ast.Node) bool {
 		switch s := n.(type) {
 		case *ast.IfStmt:
@@ -134,8 +135,14 @@ func genTxtarWrite(g *gen) {
 			switch twCallName(s) {
 			case "os.OpenFile":
 				openCall = s
+				nOpen++
 			case "os.MkdirAll":
 				mkdirCall = s
+				nMkdir++
+			default:
+				if n := twCallName(s); strings.HasPrefix(n, "os.") {
+					nOtherOS++
+				}
 			}
 		}
 		return true
@@ -204,7 +211,12 @@ func genTxtarWrite(g *gen) {
 	g.emitBytesList("write_guard_exact", fmt.Sprintf("cleaned names rejected by equality: %q", exact), exact)
 	g.emitBytesList("write_guard_prefix", fmt.Sprintf("cleaned names rejected by prefix: %q", prefix), prefix)
 
-	// ---- os.OpenFile(fp, flags, perm)
+	// ---- os.OpenFile(fp, flags, perm): the model has exactly one open per entry, one
+	// MkdirAll, and no other file-system call of package os
+	if nOpen != 1 || nMkdir != 1 || nOtherOS != 0 {
+		g.fail("txtar.Write: %d os.OpenFile, %d os.MkdirAll and %d other os.* calls; the model has exactly one OpenFile and one MkdirAll per entry", nOpen, nMkdir, nOtherOS)
+		return
+	}
 	if openCall == nil || len(openCall.Args) != 3 {
 		g.fail("txtar.Write: no os.OpenFile(path, flags, perm) call")
 		return
